@@ -56,7 +56,20 @@ func tieProfile(c *repeatCase) *profile.Profile {
 		}
 		gp.Samples = append(gp.Samples, m)
 	}
-	return gp.Build().Copy()
+	p := gp.Build().Copy()
+	// conflicting units for the numeric tags of several keys (warnings must come in a fixed order too)
+	if c.NegMask&1 != 0 {
+		for i, s := range p.Sample {
+			for k, vals := range s.NumLabel {
+				u := make([]string, len(vals))
+				for j := range u {
+					u[j] = []string{"bytes", "kb", "ms"}[(i+j)%3]
+				}
+				s.NumUnit[k] = u
+			}
+		}
+	}
+	return p
 }
 
 const K = 6
@@ -98,7 +111,8 @@ func checkRepeat(c *repeatCase, o *vk.Obs) []string {
 		if res.Err != nil {
 			errS = res.Err.Error()
 		}
-		out := res.Out("out")
+		_, uiErrs := res.UI.Snapshot()
+		out := res.Out("out") + "\n--- messages ---\n" + strings.Join(uiErrs, "\n")
 		if k == 0 {
 			first, firstErr = out, errS
 			continue
